@@ -44,6 +44,7 @@ def _allowed(kinds, sel):
     k = kinds[1] if sel >= 12 else kinds[0]; o = sel % 12
     if k == "K_IO_P" and o in (1, 2): return False
     if k == "K_SIG_P" and 4 <= o <= 8: return False
+    if k == "K_SIG_P" and o in (1, 2): return False          # KF_EXCLUDE_sigtimeout (see kf_sigtimeout)
     return True
 
 def obligations(tier):
@@ -54,4 +55,13 @@ def obligations(tier):
         for sel in range(26):
             if _allowed(kinds, sel):
                 obs.append(_ob(kinds[0], kinds[1], 2, prefix=(sel,)))
+    if tier != "quick":
+        # known finding (predicate: a persistent signal event is added with a timeout): must still fail
+        o = _ob("K_IO", "K_SIG_P", 2, prefix=(13, 25))
+        o.update(name="kf_sigtimeout", defines=o["defines"] + ["KF_ONLY_sigtimeout"], known_finding="KF-C02-signal-timeout-drops-persistent-signal",
+                 expect_fail=["C02: event_pending differs from the reference model", "C02: expiry time reported by event_pending differs",
+                              "C02: number of added events", "C02: combined count", "C02: max added events", "C02: event_base_loop must return 1 exactly",
+                              "C02: number of callbacks", "C02: an event's callback count", "C02: number of active events", "C02: max active events"],
+                 desc="KNOWN FINDING witness: add(1 s) on a persistent signal event, loop with the clock +2 s: the model keeps the signal registered and re-arms; the library deletes the event")
+        obs.append(o)
     return obs
